@@ -69,7 +69,9 @@ def jump_spec(goto):
 
 
 def check_lang(R, key, what, dfa, spec, where=None):
-    sd = DFA(spec_nfa(spec))
+    from .gea import normalised_dfa
+    sd = normalised_dfa(spec_nfa(spec))
+    dfa = normalised_dfa(dfa)
     diff = compare(dfa, sd)
     if diff is None:
         R.ok(key, "%s: event language equals the definition (%d DFA states; e.g. %s)" % (what, dfa.n_states(), " ".join((dfa.enumerate_strings(3) or [[]])[-1][:12])), where)
@@ -88,8 +90,10 @@ def check_lang_any(R, key, what, dfa, specs, where=None):
     """the implementation's language must equal one of the acceptable variants of the definition
     (operand order of commutative steps, order of independent statements)"""
     best = None
+    from .gea import normalised_dfa
+    dfa = normalised_dfa(dfa)
     for sp in specs:
-        sd = DFA(spec_nfa(sp))
+        sd = normalised_dfa(spec_nfa(sp))
         diff = compare(dfa, sd)
         if diff is None:
             R.ok(key, "%s: event language equals the definition (%d DFA states, %d accepted variants; e.g. %s)" % (what, dfa.n_states(), len(specs), " ".join((dfa.enumerate_strings(3) or [[]])[-1][:10])), where)
